@@ -141,6 +141,8 @@ pub fn run(seed: u64, thorough: bool, out_dir: &std::path::Path) -> Out {
                 let node = Node::temp(&tree.consensus);
                 let mut delivered: HashSet<u64> = HashSet::new();
                 let mut verdicts: HashMap<u64, Vec<bool>> = HashMap::new();
+                let mut n_dropped = 0u64;
+                let mut any_stall = false;
                 let mut pending: Vec<Pending> = vec![];
                 let mut obs: Vec<(u128, u64)> = vec![];
                 let mut viol: Vec<Value> = vec![];
@@ -161,6 +163,7 @@ pub fn run(seed: u64, thorough: bool, out_dir: &std::path::Path) -> Out {
                     // orphan pool changes), so a loaded machine is not mistaken for a stalled pipeline
                     let mut t0 = Instant::now();
                     let mut last_seen = (usize::MAX, usize::MAX);
+                    let mut dropped: Vec<u64> = vec![];
                     let mut stalled = false;
                     loop {
                         let seen = (verdicts.values().map(|v| v.len()).sum::<usize>(), node.chain().orphan_blocks_len());
@@ -168,7 +171,16 @@ pub fn run(seed: u64, thorough: bool, out_dir: &std::path::Path) -> Out {
                         pending.retain(|p| match p.rx.try_recv() {
                             Ok(v) => { verdicts.entry(p.id).or_default().push(v.is_ok()); false }
                             Err(std::sync::mpsc::TryRecvError::Empty) => true,
-                            Err(_) => false,
+                            // the chain service dropped the callback without calling it: remember, and decide
+                            // from the store whether the block has been dealt with
+                            Err(_) => { dropped.push(p.id); false }
+                        });
+                        dropped.retain(|id| {
+                            let hash = tree.node(*id).block.hash();
+                            let status = node.shared.get_block_status(&hash);
+                            let done = node.shared.store().get_block_ext(&hash).is_some() || status == ckb_shared::block_status::BlockStatus::BLOCK_INVALID;
+                            if done { verdicts.entry(*id).or_default().push(status != ckb_shared::block_status::BlockStatus::BLOCK_INVALID); n_dropped += 1; }
+                            !done
                         });
                         // quiescent: every connected block has its verdict and every other delivered
                         // block is waiting in the orphan pool
@@ -183,7 +195,7 @@ pub fn run(seed: u64, thorough: bool, out_dir: &std::path::Path) -> Out {
                         }
                         std::thread::sleep(Duration::from_micros(300));
                     }
-                    if stalled { break; }
+                    if stalled { any_stall = true; break; }
                     // settle: verdicts for duplicates may still be in flight; they cannot move the tip
                     let snap = node.shared.snapshot();
                     let tip_id = tree.id_of(&snap.tip_hash());
@@ -210,7 +222,7 @@ pub fn run(seed: u64, thorough: bool, out_dir: &std::path::Path) -> Out {
                 // what is recorded for every processed block: accumulated difficulty; a verified flag,
                 // when there is one, says whether the whole chain below is valid; the main chain is
                 // exactly the path of the tip
-                {
+                if !any_stall {
                     let store = node.shared.store();
                     for d in delivered.iter() {
                         let path = tree.path(*d);
@@ -243,7 +255,7 @@ pub fn run(seed: u64, thorough: bool, out_dir: &std::path::Path) -> Out {
                     }
                 }
                 node.stop();
-                (obs, final_tip, viol)
+                (obs, final_tip, viol, n_dropped)
             }));
             out.evaluations += 1;
             out.distinct.insert(format!("{:?}{:?}", jtree, sched));
@@ -252,8 +264,9 @@ pub fn run(seed: u64, thorough: bool, out_dir: &std::path::Path) -> Out {
                     let msg = p.downcast_ref::<String>().cloned().or_else(|| p.downcast_ref::<&str>().map(|s| s.to_string())).unwrap_or_default();
                     out.viol.push(json!({"what": format!("the node panicked: {msg}"), "detail": {"case": jcase}}));
                 }
-                Ok((obs, final_tip, viol)) => {
+                Ok((obs, final_tip, viol, n_dropped)) => {
                     out.viol.extend(viol);
+                    *out.stats.entry("verify_callbacks_dropped_but_block_processed".into()).or_default() += n_dropped;
                     let sched_coq = coq_list(&sched, |id| {
                         let nd = tree.node(*id);
                         format!("mkB {} {} {} {}", coq_n(nd.id as u128), coq_n(nd.parent as u128), coq_n(u256_to_u128(&nd.difficulty)), coq_bool(nd.kind == Kind::Valid))
